@@ -151,8 +151,8 @@ produceLoop:
 }
 
 func getOctoSQLValue(t octosql.Type, value *fastjson.Value) (out octosql.Value, ok bool) {
-	if value == nil {
-		return octosql.NewNull(), t.TypeID == octosql.TypeIDNull
+	if value == nil || value.Type() == fastjson.TypeNull {
+		return octosql.NewNull(), octosql.Null.Is(t) == octosql.TypeRelationIs
 	}
 
 	switch t.TypeID {
